@@ -392,7 +392,13 @@ func (s *OuterJoin) receiveRecord(ctx ExecutionContext, produce ProduceFn, myRec
 						copy(outputValues, subitemTyped.GroupKey)
 					}
 
-					if err := produce(ProduceFromExecutionContext(ctx), NewRecord(outputValues, true, subitemTyped.EventTimes[i])); err != nil {
+					// The retraction happens now, so it can't carry an event time earlier than the record causing it.
+					eventTime := record.EventTime
+					if subitemTyped.EventTimes[i].After(eventTime) {
+						eventTime = subitemTyped.EventTimes[i]
+					}
+
+					if err := produce(ProduceFromExecutionContext(ctx), NewRecord(outputValues, true, eventTime)); err != nil {
 						outErr = fmt.Errorf("couldn't produce: %w", err)
 						return false
 					}
@@ -449,7 +455,13 @@ func (s *OuterJoin) receiveRecord(ctx ExecutionContext, produce ProduceFn, myRec
 						copy(outputValues, subitemTyped.GroupKey)
 					}
 
-					if err := produce(ProduceFromExecutionContext(ctx), NewRecord(outputValues, false, subitemTyped.EventTimes[i])); err != nil {
+					// The null record reappears now, so it can't carry an event time earlier than the retraction causing it.
+					eventTime := record.EventTime
+					if subitemTyped.EventTimes[i].After(eventTime) {
+						eventTime = subitemTyped.EventTimes[i]
+					}
+
+					if err := produce(ProduceFromExecutionContext(ctx), NewRecord(outputValues, false, eventTime)); err != nil {
 						outErr = fmt.Errorf("couldn't produce: %w", err)
 						return false
 					}
